@@ -256,6 +256,24 @@ fn check_table(seq: &[usize], u: &[N], own: &Id20, targets: &[Id20], out: &mut P
         want.sort();
         want.truncate(20);
         let want: Vec<(Id20, SocketAddrV4)> = want.into_iter().map(|w| w.1).collect();
+        // the selection of storage nodes / lookup seeds from the same table (take-until-secure):
+        // a prefix of the table's full secure-first order, at least min(20, members) long
+        match quiet(|| catch(|| dht::verif::table_closest_secure(&table, (*target).into()))) {
+            Ok(sel) => {
+                let sel: Vec<(Id20, SocketAddrV4)> = sel.iter().map(ident).collect();
+                let mut full: Vec<((u8, Id20), (Id20, SocketAddrV4))> = members.iter().map(|m| (key(&N { id: m.0, addr: m.1 }, target), *m)).collect();
+                full.sort();
+                let full: Vec<(Id20, SocketAddrV4)> = full.into_iter().map(|w| w.1).collect();
+                if sel.len() < members.len().min(20) || sel.len() > full.len() || sel[..] != full[..sel.len()] {
+                    out.violation(
+                        "table/closest-secure-not-a-prefix",
+                        format!("table built by adds {seq:?} has {} members; the storage-node selection returned {} nodes, which is not a prefix (>= min(20, members)) of the table's secure-first order", members.len(), sel.len()),
+                        replay.clone(),
+                    );
+                }
+            }
+            Err(p) => out.violation("table/closest-secure-panic", format!("closest_secure() panicked: {p}"), replay.clone()),
+        }
         if got.len() > 20 {
             out.violation("table/closest-more-than-20", "closest() returned more than 20", replay.clone());
         }
